@@ -112,10 +112,14 @@ def coq_string(s: str) -> str:
 class HandlerScan:
     """Ordered segments of one method: items outside and inside `async with self.db` blocks."""
 
-    def __init__(self, cls_methods: set[str], fn):
+    def __init__(self, cls_methods: set[str], fn, module_funcs=None):
         self.fn = fn
         self.name = fn.name
         self.methods = cls_methods
+        # module-level plain functions of director.py: a call of one of them is translated by inlining its body at
+        # the call site (its calls are classified like the handler's own and land in the same segment)
+        self.module_funcs = module_funcs or {}
+        self.inlining: list[str] = []
         self.env: dict[str, object] = {}
         self.segs: list[tuple[str, list]] = []   # ("out"|"block", items)
         self.cur: list = []
@@ -126,19 +130,60 @@ class HandlerScan:
         self._flush("out")
 
     # -- typing of locals ----------------------------------------------------------------------
+    @staticmethod
+    def _ann_type(annotation):
+        ann = ast.unparse(annotation) if annotation is not None else ""
+        if ann.startswith(("Mapping", "dict")):
+            return "dict"
+        if ann.startswith("list"):
+            return "list"
+        if ann.startswith("set"):
+            return "set"
+        return "scalar"
+
     def _type_params(self):
         for a in self.fn.args.args + self.fn.args.kwonlyargs:
             if a.arg == "self":
                 continue
-            ann = ast.unparse(a.annotation) if a.annotation is not None else ""
-            if ann.startswith(("Mapping", "dict")):
-                self.env[a.arg] = "dict"
-            elif ann.startswith("list"):
-                self.env[a.arg] = "list"
-            elif ann.startswith("set"):
-                self.env[a.arg] = "set"
-            else:
-                self.env[a.arg] = "scalar"
+            self.env[a.arg] = self._ann_type(a.annotation)
+
+    RETURN_TYPES = {"NamedGlob": "NamedGlob", "Step": "Step", "File": "File", "None": "scalar", "str": "scalar",
+                    "int": "scalar", "bool": "scalar", "float": "scalar"}
+
+    def _module_func_result(self, name):
+        fn = self.module_funcs[name]
+        ann = ast.unparse(fn.returns) if fn.returns is not None else None
+        if ann is None:
+            raise TranslatorError(f"{self.name}: module function {name} has no return annotation")
+        if ann in self.RETURN_TYPES:
+            return self.RETURN_TYPES[ann]
+        ty = self._ann_type(fn.returns)
+        if ty == "scalar":
+            raise TranslatorError(f"{self.name}: cannot type the result of module function {name} -> {ann}")
+        return ty
+
+    def _inline(self, name, c: ast.Call):
+        """Translate a call of a module-level function of director.py by scanning its body in place."""
+        fn = self.module_funcs[name]
+        if name in self.inlining or len(self.inlining) > 4:
+            raise TranslatorError(f"{self.name}: recursive module function {name}")
+        if fn.decorator_list or fn.args.vararg or fn.args.kwarg or fn.args.posonlyargs:
+            raise TranslatorError(f"{self.name}: module function {name} has an unsupported signature")
+        for x in ast.walk(fn):
+            if isinstance(x, (ast.Await, ast.AsyncWith, ast.AsyncFor, ast.Global, ast.Nonlocal, ast.Yield, ast.YieldFrom,
+                              ast.Lambda, ast.Try, ast.ClassDef)) or \
+                    (isinstance(x, (ast.FunctionDef, ast.AsyncFunctionDef)) and x is not fn):
+                raise TranslatorError(f"{self.name}: module function {name} contains {type(x).__name__}")
+            if isinstance(x, ast.Name) and x.id == "self":
+                raise TranslatorError(f"{self.name}: module function {name} refers to self")
+        saved = self.env
+        self.env = {a.arg: self._ann_type(a.annotation) for a in fn.args.args + fn.args.kwonlyargs}
+        self.inlining.append(name)
+        try:
+            self.stmts(body_without_docstring(fn))
+        finally:
+            self.inlining.pop()
+            self.env = saved
 
     def _bind(self, target, value):
         src = None
@@ -164,6 +209,8 @@ class HandlerScan:
                 ty = "PathObj"
             elif src in SOURCE_TYPES:
                 ty = SOURCE_TYPES[src]
+            elif src in self.module_funcs:
+                ty = self._module_func_result(src)
             elif src in ("len",) or (src or "").endswith((".time", "get_running_loop")):
                 ty = "scalar"
             else:
@@ -314,6 +361,14 @@ class HandlerScan:
                 cls = "CPure"
             elif f.id in AWAITABLE_NAMES:
                 cls = AWAITABLE_NAMES[f.id]
+            elif f.id in self.module_funcs:
+                # the arguments are evaluated first, then the body runs where the call stands
+                for a in c.args:
+                    self.expr(a.value if isinstance(a, ast.Starred) else a)
+                for k in c.keywords:
+                    self.expr(k.value)
+                self._inline(f.id, c)
+                return
             else:
                 raise TranslatorError(f"{self.name}: call of unclassified function {f.id}")
         elif isinstance(f, ast.Attribute):
@@ -383,13 +438,16 @@ def scan_director():
             for d in node.decorator_list:
                 if dotted(d) == "allow_rpc":
                     raise TranslatorError(f"@allow_rpc outside DirectorHandler: {node.name}")
+    module_funcs = {node.name: node for node in tree.body
+                    if isinstance(node, ast.FunctionDef) and node.name not in PURE_NAMES
+                    and node.name not in AWAITABLE_NAMES}
     scans = {}
     todo = sorted(rpc)
     while todo:
         n = todo.pop(0)
         if n in scans:
             continue
-        sc = HandlerScan(set(methods), methods[n])
+        sc = HandlerScan(set(methods), methods[n], module_funcs)
         scans[n] = sc
         todo += sorted(sc.helpers - set(scans))
     # methods not reachable from an RPC entry point: must not touch the workflow or the database
@@ -723,6 +781,8 @@ def diagnose():
         consts = _module_int_consts(tree)
         cls = next(n for n in tree.body if isinstance(n, ast.ClassDef) and n.name == "DirectorHandler")
         methods = {n.name: n for n in cls.body if isinstance(n, (ast.FunctionDef, ast.AsyncFunctionDef))}
+        module_funcs = {n.name: n for n in tree.body if isinstance(n, ast.FunctionDef)
+                        and n.name not in PURE_NAMES and n.name not in AWAITABLE_NAMES}
         for name, fn in methods.items():
             lits = _int_literals(fn, consts)
             if lits:
@@ -732,7 +792,7 @@ def diagnose():
                 res["multi_block"][name] = nblocks
             if any(dotted(d) == "allow_rpc" for d in fn.decorator_list):
                 try:
-                    HandlerScan(set(methods), fn)
+                    HandlerScan(set(methods), fn, module_funcs)
                 except TranslatorError as e:
                     res["suspects"][name] = str(e)
                 except Exception as e:  # noqa: BLE001
